@@ -178,6 +178,8 @@ IDIOMS = [
     # R6: clone-on-write wrapper -> owned copy (`Cow::Borrowed(x)` + `.to_mut()` is `x.clone()` + `&mut` up to allocation behaviour)
     ('R6.cow_borrowed', r'stdlib::borrow::Cow::Borrowed\(([A-Za-z_][A-Za-z0-9_]*(?:\.[A-Za-z_][A-Za-z0-9_]*)*)\)', r'\1.clone()'),
     ('R6.cow_to_mut', r'\b([A-Za-z_][A-Za-z0-9_]*)\.to_mut\(\)', r'&mut \1'),
+    # R6: `s.extend(iter::repeat(c).take(n))` on a String -> shim helper (appends n copies of c)
+    ('R6.extend_repeat', r'\b([A-Za-z_][A-Za-z0-9_]*)\.extend\(stdlib::iter::repeat\((\'[^\']\')\)\.take\(([^;]+)\)\);', r'shim::string_extend_repeat(&mut \1, \2, \3);'),
     # R2: a wildcard closure parameter is named (Verus accepts only variables there)
     ('R2.closure_wildcard_param', r'\|_\| ', r'|_unused| '),
     # R3 debug_assert_eq / _ne  (message dropped)
